@@ -58,8 +58,9 @@ def _shift_term_blocks(t, bo):
 def inline_call(caller, callee, call_bb):
     """returns True if the call ending caller block call_bb was replaced by callee's body"""
     term = caller["blocks"][call_bb]["term"]
-    if term["t"] != "call" or term.get("to") is None:
+    if term["t"] != "call":
         return False
+    diverging = term.get("to") is None  # a `-> !` helper (cold panic / error path): inlined all the same
     lo = len(caller["locals"])
     bo = len(caller["blocks"])
     cal = copy.deepcopy(callee)
@@ -86,6 +87,9 @@ def inline_call(caller, callee, call_bb):
     for blk in cal["blocks"]:
         t = blk["term"]
         if t["t"] == "return":
+            if diverging:
+                blk["term"] = {"t": "unreachable", "sp": t["sp"]}
+                continue
             blk["st"].append({"s": "assign", "pl": copy.deepcopy(dest), "rv": {"r": "use", "o": {"m": {"l": ret_local, "p": [], "t": cal["locals"][0]["ty"]}}}, "sp": t["sp"]})
             blk["term"] = {"t": "goto", "to": cont, "sp": t["sp"], "inlined_return": True}
         elif t["t"] == "resume":
@@ -101,7 +105,8 @@ def inline_call(caller, callee, call_bb):
     blkc["term"] = {"t": "goto", "to": bo, "sp": term["sp"], "inlined_call": callee["key"]}
     caller.setdefault("inlined", []).append(callee["key"])
     try:
-        thread_returns(caller, lo, bo, bo + len(cal["blocks"]), cont, dest)
+        if not diverging:
+            thread_returns(caller, lo, bo, bo + len(cal["blocks"]), cont, dest)
     except Exception:
         # threading is an optimisation of precision only: without it the inlined body is still a sound
         # over-approximation (all returns merge in the continuation)
